@@ -194,6 +194,11 @@ pub enum Op {
         pairs: u16,
         v: Fe,
     },
+    /// hook: runtime-width `range_check`
+    RangeSeam {
+        bits: u16,
+        v: Fe,
+    },
     Logic {
         xor: bool,
         pairs: u8,
@@ -272,6 +277,7 @@ impl Op {
             Op::SelectZero { .. } => "component_select_zero",
             Op::RangeBits { .. } => "component_range_bits",
             Op::RangePairs { .. } => "component_range",
+            Op::RangeSeam { .. } => "range_check(seam)",
             Op::Logic { xor: true, .. } => "append_logic_xor",
             Op::Logic { xor: false, .. } => "append_logic_and",
             Op::Truncate { .. } => "component_truncate",
@@ -355,6 +361,10 @@ pub struct Trace {
     pub skipped: Vec<usize>,
     /// Option-shape mismatches and similar API-level disagreements
     pub api_mismatch: Vec<String>,
+    /// per op: (witness count, gate count) before and after it ran
+    pub op_range: Vec<((usize, usize), (usize, usize))>,
+    /// per op: index of the first handle it pushed and the count after
+    pub op_handles: Vec<(usize, usize)>,
 }
 
 impl Trace {
@@ -451,6 +461,11 @@ pub fn run_ops(
     for (oi, op) in prog.ops.iter().enumerate() {
         let nw = t.wits.len();
         let wi = |i: &u16| pick(*i, nw);
+        let before = (c.verif_witness_count(), c.constraints());
+        let handles_before = t.wits.len();
+        // `continue` inside the match would skip the bookkeeping below, so
+        // the match is wrapped in a labelled block
+        'op: {
         match op {
             Op::Wit(v) => {
                 let v = match &prog.inputs {
@@ -649,6 +664,17 @@ pub fn run_ops(
                 t.push(w, val, oi);
                 dispatch::range_pairs(c, pairs, w);
             }
+            Op::RangeSeam { bits, v } => {
+                let bits = (*bits as usize).min(256);
+                let val = if solve && bits < 255 {
+                    spec::low_bits(&v.0, bits as u32)
+                } else {
+                    input_or(prog, &mut wit_no, v.0)
+                };
+                let w = c.append_witness(val);
+                t.push(w, val, oi);
+                c.verif_range_check(w, bits);
+            }
             Op::Logic { xor, pairs, a, b } => {
                 let pairs = (*pairs as usize).min(127);
                 let [a, b] = [wi(a), wi(b)];
@@ -747,7 +773,7 @@ pub fn run_ops(
                 let p = pick(*p, t.pts.len());
                 if solve && !t.pts_member[p] {
                     t.skipped.push(oi);
-                    continue;
+                    break 'op;
                 }
                 let tf = c.assert_torsion_free_point(t.pts[p]);
                 let m = t.pts_model[p];
@@ -904,6 +930,10 @@ pub fn run_ops(
                 }
             }
         }
+        }
+        t.op_range
+            .push((before, (c.verif_witness_count(), c.constraints())));
+        t.op_handles.push((handles_before, t.wits.len()));
     }
     for (i, v) in &prog.overrides {
         if *i < c.verif_witness_count() {
